@@ -320,13 +320,18 @@ PROPS["C19"] = {
 
 PROPS["C20"] = {
     "level": "exploration",
-    "plan": zb_plan(("release", "miri")),
+    "plan": zb_plan(("release", "tsan", "miri"), tsan_only="real-daemon"),
     "rule": ("histories of 3..8 rounds separated by quiescence; in each round stream creations (5 rules incl. equal and overlapping ones, "
              "queue capacities 1/2/3/64), drops (sync Drop, async_drop, clone-then-drop-original) race with 0..6 labelled incoming signals "
              "under 5 scheduler biases; a stream live through a whole round must receive exactly the matching messages of that round in "
              "order, messages of its creation/drop round are optional, anything else forbidden; at every quiescent point the "
-             "cfg(zbus_verif) snapshot must show refcount(rule) == live handles; distinct = distinct (ops, schedule)"),
-    "gates": {"quick": {"evaluations": 2500, "distinct": 2000, "streams_checked": 10000, "messages_sent": 20000, "class:history-with-clone": 200},
+             "cfg(zbus_verif) snapshot must show refcount(rule) == live handles; "
+             "class real-daemon (not under Miri): 280 (8000 thorough) bursts of 20..140 (420) numbered broadcast signals from a second connection through a PRIVATE "
+             "dbus-daemon 1.14 into 2..5 streams of one connection (4 rules, clones, queue capacities 1/2/64/default), each consumed on its own OS thread (a third of them "
+             "slowly), while another thread creates and drops unrelated streams on the same connection; every burst ends with a signal all rules admit, and what came out "
+             "of each stream before it must be exactly the admitted numbers in order; distinct = distinct (ops, schedule)"),
+    "gates": {"quick": {"evaluations": 2500, "distinct": 2000, "streams_checked": 10000, "messages_sent": 20000, "class:history-with-clone": 200,
+                        "class:real-daemon": 270, "real_streams_checked": 800, "real_signals_sent": 15000, "real_churn_streams": 3000},
               "thorough": {"evaluations": 120000, "distinct": 100000}},
     "assumptions": ["messages are labelled by construction; the matching predicate of the 5 rules is the harness's own (C21 judges the library matcher)"],
 }
